@@ -158,12 +158,16 @@ Qed.
 Lemma qf_res : forall s r, RExt ch s r -> f_fail (fst s) = false -> f_fail (fst (res_state r)) = false.
 Proof. intros s r X F. destruct (TrExt_qf s (res_state r) (TrExt_weaken ch qf _ _ ch_qf X)) as [A _]. congruence. Qed.
 
+(* iv_main is left with no debt open (the TEnd event that follows fails like a TWait) *)
+Definition MLF (r : res) : Prop :=
+  match r with R s' => f_fail (fst s') = false /\ f_due (fst s') = [] | Halt s' => f_fail (fst s') = false end.
+
 Lemma main_loop_fair : forall fuel s rt, J true s -> T1 s -> InvT s -> LKM s ->
   nwait (kern s) <= sc_limit sc -> ran (mst s) = [] -> FairI rt s ->
-  f_fail (fst (res_state (main_loop sc fuel s rt))) = false.
+  MLF (main_loop sc fuel s rt).
 Proof.
   induction fuel as [|fuel IH]; intros s rt Jh T IT LM NW RN FI; cbn [main_loop].
-  - cbn [halt res_state]. rewrite fst_emit. apply FI.
+  - cbn [halt MLF]. rewrite fst_emit. apply FI.
   - destruct (InvT_parts s IT) as (IW & C & B & Q3s).
     assert (P1 : Post true s (if rt then run_timers sc s else R s)).
     { destruct rt; [apply run_timers_post; assumption|apply Post_same; assumption]. }
@@ -181,7 +185,7 @@ Proof.
       - rewrite E in FX1. apply (TrExt_qf_nil s s1 (TrExt_weaken ch qf _ _ ch_qf FX1) NIL).
       - subst rt. apply (run_timers_fair sc WF clk s s1 Jh DK P B E). }
     pose proof (qf_res _ _ FX1 (proj1 FI)) as FF1.
-    destruct (if rt then run_timers sc s else R s) as [s1|s1]; cbn [bind Post Q1 res_state] in *; [|exact FF1].
+    destruct (if rt then run_timers sc s else R s) as [s1|s1]; cbn [bind Post Q1 res_state MLF] in *; [|exact FF1].
     destruct P1 as [J1 F1]. destruct QT as [TS1 [R1 BF1]]. destruct (K1' s1 eq_refl) as (IT1 & LM1 & NW1).
     specialize (FN1 s1 eq_refl).
     destruct (InvT_parts s1 IT1) as (IW1 & C1 & B1 & Q31).
@@ -194,11 +198,11 @@ Proof.
       split; [split; [exact IV2|eapply TfdM_tm; eassumption]|]. split; [eapply LKM_TFs; [exact LM1|apply PKK]|exact N2]. }
     pose proof (run_tasks_exth sc s1) as FX2.
     pose proof (qf_res _ _ FX2 FF1) as FF2.
-    destruct (run_tasks sc s1) as [s2|s2]; cbn [bind PostT Q1T res_state] in *; [|exact FF2].
+    destruct (run_tasks sc s1) as [s2|s2]; cbn [bind PostT Q1T res_state MLF] in *; [|exact FF2].
     destruct P2 as [J2 C2]. destruct Q2 as [TS2 BF2]. destruct (K2 s2 eq_refl) as (IT2 & LM2 & NW2).
     assert (FN2 : f_due (fst s2) = []) by (apply (TrExt_qf_nil s1 s2 (TrExt_weaken ch qf _ _ ch_qf FX2) FN1)).
     destruct (InvT_parts s2 IT2) as (IW2 & _ & B2 & Q32).
-    destruct (quit s2 || (numobjs s2 =? 0)) eqn:QN; [exact FF2|].
+    destruct (quit s2 || (numobjs s2 =? 0)) eqn:QN; [cbn [MLF]; split; [exact FF2|exact FN2]|].
     apply orb_false_iff in QN. destruct QN as [Q2' _].
     change (match tasks s2 with _ :: _ => Some 0 | [] => soonest_timeout s2 end) with (AbsOf s2).
     pose proof (poll_and_run_post sc WF s2 (AbsOf s2) J2 Q2') as P3.
@@ -208,7 +212,7 @@ Proof.
     assert (CK2 : 1 <= clock (kern s2)) by (destruct (t1_stale _ TS2) as (_ & X & _); exact X).
     pose proof (poll_and_run_fair s2 J2 IW2 LM2 Q2' C2 B2 CK2 FF2 FN2) as PF.
     destruct (poll_and_run sc s2 (AbsOf s2)) as [r rt']. cbn [Datatypes.fst snd] in P3, Q3, PI, PL, PF.
-    destruct r as [s3|s3]; cbn [bind Post0 Q1W Q1T MPF res_state] in *; [|exact PF].
+    destruct r as [s3|s3]; cbn [bind Post0 Q1W Q1T MPF res_state MLF] in *; [|exact PF].
     destruct P3 as [J3 C3]. destruct Q3 as (TS3 & RN3 & BF3).
     destruct (PI s3 IT2 eq_refl) as (IT3 & N3 & N3').
     specialize (PL s3 (proj1 (InvT_LoopInv s2) IT2) LM2 eq_refl).
@@ -257,9 +261,10 @@ Proof.
   { unfold FairI. change (fst s2) with (fst (emit s1 TMain)). rewrite fst_emit. cbn [f_step]. split; [exact FFA|left; exact FD1]. }
   pose proof (main_loop_fair (Z.to_nat (sc_limit sc) + 2) s2 true J2 TS2 (proj2 (InvT_LoopInv s2) L2) LM2
                 ltac:(rewrite N2, N1; lia) RN2 FI2) as FM.
-  destruct (main_loop sc (Z.to_nat (sc_limit sc) + 2) s2 true) as [s3|s3]; cbn [bind res_state] in *; [|exact FM].
+  destruct (main_loop sc (Z.to_nat (sc_limit sc) + 2) s2 true) as [s3|s3]; cbn [bind res_state MLF] in *; [|exact FM].
+  destruct FM as [FM FDM].
   set (s4 := emit s3 (TEnd (if quit s3 then 1 else 0) (numobjs s3))).
-  assert (FF4 : f_fail (fst s4) = false) by (unfold s4; rewrite fst_emit; exact FM).
+  assert (FF4 : f_fail (fst s4) = false) by (unfold s4; rewrite fst_emit; cbn [f_step f_fail]; rewrite FM, FDM; reflexivity).
   pose proof (teardown_ext (zseq 0 16) s4) as X5. pose proof (ca_res _ _ X5 FF4) as FF5.
   destruct (teardown s4 (zseq 0 16)) as [s5|s5]; cbn [bind res_state] in *; [|exact FF5].
   rewrite fst_emit. cbn [f_step].
